@@ -135,6 +135,16 @@ def session(root, sess, plan=None, frozen_check=False):
     mem = Memory(os.path.join(root, "cache"), verbose=0, compress=sess["compress"])
     cb = expires_after(seconds=100) if sess["cb"] else None
     cached = {n: mem.cache(getattr(vmod, n), cache_validation_callback=cb) for n in ("f", "g")}
+    if frozen_check:
+        # the store stays maintainable: an eviction pass over whatever the kill left behind (ranks every item, is not
+        # asked to delete anything) does not raise
+        try:
+            import datetime as _dtm
+            mem.reduce_size(age_limit=_dtm.timedelta(days=10000))
+        except BaseException as e:  # noqa
+            import traceback
+            tb = [(os.path.basename(f.filename), f.lineno, f.name) for f in traceback.extract_tb(e.__traceback__)][-4:]
+            out.append(("exception", (["reduce_size_right_after_the_kill"], type(e).__name__, str(e)[:100], tb)))
     for op in sess["ops"]:
         try:
             if op[0] == "call":
@@ -170,6 +180,14 @@ def session(root, sess, plan=None, frozen_check=False):
                 if len(vmod.CALLS) != n0:
                     out.append(("not_cached_after_recovery", (op,)))
                 out.append(("value", (op, v)))
+        # ... and the store stays maintainable: an eviction pass over whatever the kill left behind does not raise
+        # (last step of the judging session: limits that force the items to be ranked)
+        try:
+            mem.reduce_size(items_limit=1)
+        except BaseException as e:  # noqa
+            import traceback
+            tb = [(os.path.basename(f.filename), f.lineno, f.name) for f in traceback.extract_tb(e.__traceback__)][-4:]
+            out.append(("exception", (["reduce_size_after_recovery"], type(e).__name__, str(e)[:100], tb)))
     if plan is not None:
         out.append(("points", (plan.n, plan.log)))
     return out
